@@ -234,3 +234,63 @@ def listcomp(ex, st, e):
 
 
 M.listcomp = listcomp
+
+
+# ---- positive integer vectors (mode sizes, ranks): products, sums, dot products with sign information
+def _pos(v):
+    return isinstance(v, VArr) and getattr(v, 'pos', False)
+
+
+_orig_binop2 = M.arr_binop
+
+
+def arr_binop2(ex, st, op, l, r, node):
+    if isinstance(l, VArr) and isinstance(r, VArr) and l.ndim == 1 and r.ndim == 1 and l.tag == 'ivec' and r.tag == 'ivec' \
+            and isinstance(op, ast.Mult):
+        used('integer vector * integer vector -> elementwise product (requires equal lengths)')
+        ex.oblige(st, 'call-pre', 'elementwise-shapes-agree', Z(l.shape[0]) == Z(r.shape[0]), node)
+        out = VArr(l.shape, ex.fresh('ivprod', IA), 'ivec', 'i')
+        out.pos = _pos(l) and _pos(r)
+        return out
+    return _orig_binop2(ex, st, op, l, r, node)
+
+
+M.arr_binop = arr_binop2
+_orig_index2 = M.arr_index
+
+
+def arr_index2(ex, st, a, sl_, node):
+    out = _orig_index2(ex, st, a, sl_, node)
+    if isinstance(out, VArr) and _pos(a) and out.ndim == 1:
+        out.pos = True
+    if _pos(a) and is_intsort(out) and not isinstance(out, int):
+        st.assume(out >= 1)
+    return out
+
+
+M.arr_index = arr_index2
+
+
+@model('np.dot')
+def m_dot(ex, st, args, kwargs, node):
+    a, b = st.deref(args[0]), st.deref(args[1])
+    if isinstance(a, VArr) and isinstance(b, VArr) and a.ndim == 1 and b.ndim == 1:
+        used('np.dot(u, v) for vectors -> scalar (requires equal lengths; >= len for vectors with entries >= 1)')
+        ex.oblige(st, 'call-pre', 'dot-lengths-agree', Z(a.shape[0]) == Z(b.shape[0]), node)
+        s = ex.fresh_int('dot') if a.dtype == 'i' and b.dtype == 'i' else ex.fresh_real('dot')
+        if _pos(a) and _pos(b):
+            st.assume(s >= Z(a.shape[0]))
+        return s
+    raise Unsupported('np.dot pattern')
+
+
+@model('np.sum')
+def m_sum(ex, st, args, kwargs, node):
+    a = st.deref(args[0])
+    if isinstance(a, VArr) and a.ndim == 1 and not kwargs:
+        used('np.sum(v) -> scalar (>= len v for a vector with entries >= 1)')
+        s = ex.fresh_int('sum') if a.dtype == 'i' else ex.fresh_real('sum')
+        if _pos(a):
+            st.assume(s >= Z(a.shape[0]))
+        return s
+    raise Unsupported('np.sum pattern')
